@@ -138,11 +138,11 @@ def parse_unit(path):
                     raise ExtractError('%s:%d: nested block' % (path, no))
                 unit['segments'].append(('text', cur))
                 cur = []
-                m = re.match(r'(fn|item|stub)\s+(\S+)::(?:(struct|enum|fn)\s+)?(\w+)(?:\s+props=(\S+))?(?:\s+proved-in=(\S+))?', d)
+                m = re.match(r'(fn|item|stub)\s+(\S+)::(?:(struct|enum|fn)\s+)?(\w+)(?:\s+props=(\S+))?(?:\s+proved-in=(\S+))?(?:\s+trusted-sha256=(\S+))?', d)
                 if not m:
                     raise ExtractError('%s:%d: bad block header' % (path, no))
                 kind = m.group(3) or 'fn'
-                block = {'file': m.group(2), 'kind': kind, 'name': m.group(4), 'stub': m.group(1) == 'stub', 'proved_in': m.group(6),
+                block = {'file': m.group(2), 'kind': kind, 'name': m.group(4), 'stub': m.group(1) == 'stub', 'proved_in': m.group(6), 'trusted_sha': m.group(7),
                          'props': m.group(5).split(',') if m.group(5) else None, 'header': ln, 'lineno': no, 'lines': []}
             elif d == 'end':
                 if block is None:
@@ -418,6 +418,7 @@ def real_item_text(block):
     if span is None:
         raise LostAnchor('%s::%s %s not found' % (block['file'], block['kind'], block['name']))
     text = src[span[0]:span[1]]
+    block['_full_sha'] = hashlib.sha256(' '.join(texts(lex(text))).encode()).hexdigest()[:16]
     if block.get('stub'):
         # a stub keeps only the real signature: the callee is proved against its contract in another unit
         ts = lex(text)
@@ -1160,6 +1161,12 @@ def generate(unit_path, out_path, spec_root=None):
             emit(['// LOST ANCHOR: %s' % e], name)
             emit([b['footer']], None)
             continue
+        if b.get('stub') and not b.get('proved_in'):
+            # a TRUSTED stub (no unit proves its contract): the trust is in the reviewed text of the function, so its body is pinned.
+            if not b.get('trusted_sha'):
+                raise ExtractError('%s: stub %s has neither proved-in= nor trusted-sha256= (run vt.py trusted-hash)' % (unit_path, name))
+            if b['trusted_sha'] != b.get('_full_sha'):
+                report.setdefault('trusted_changed', []).append({'block': name, 'expected': b['trusted_sha'], 'found': b.get('_full_sha')})
         base = erased_tokens(chunks)
         cur = texts(lex(real))
         info = {'name': name, 'kind': 'stub' if b.get('stub') else b['kind'], 'props': b['props'] or unit['props'], 'repo_line': real_line,
